@@ -12,17 +12,18 @@ SAN_ENV = dict(ASAN_OPTIONS="detect_leaks=0:abort_on_error=1:allocator_may_retur
 
 class Run:
     """one harness execution: configuration + harness source + arguments"""
-    def __init__(self, cfg, src, args=(), group="main", label=None, kind="bex", extra_sources=(), extra_cflags=(), extra_ldflags=None, env=None, timeout=None):
+    def __init__(self, cfg, src, args=(), group="main", label=None, kind="bex", extra_sources=(), extra_cflags=(), extra_ldflags=None, env=None, timeout=None, common=None):
         self.cfg, self.src, self.args, self.group, self.kind = cfg, src, list(args), group, kind
         self.label = label or (os.path.basename(src) + ":" + cfg.tag())
         self.extra_sources, self.extra_cflags = list(extra_sources), list(extra_cflags)
         self.extra_ldflags = WRAP if extra_ldflags is None else list(extra_ldflags)
         self.env = env or {}
+        self.common = COMMON if common is None else list(common)
         self.timeout = timeout
 
     def build(self):
         name = os.path.basename(self.src).replace(".c", "")
-        return build.harness(self.cfg, COMMON + [self.src] + self.extra_sources, name, extra_cflags=self.extra_cflags, extra_ldflags=self.extra_ldflags)
+        return build.harness(self.cfg, self.common + [self.src] + self.extra_sources, name, extra_cflags=self.extra_cflags, extra_ldflags=self.extra_ldflags)
 
     def describe(self):
         return dict(config=dict(self.cfg), src=self.src, args=self.args, label=self.label)
@@ -103,6 +104,22 @@ def run_property(pid, spec, tier, seed, deadline=None):
             f, res = v["f"], v["res"]
             r = res["_run"]
             # confirm by replaying the single case twice in fresh processes
+            if r.kind == "fsx":
+                outs = []
+                for rep in range(2):
+                    env = dict(os.environ); env.update(SAN_ENV)
+                    pr = subprocess.run([res["_exe"], "--replay=" + f["id"].split("start=", 1)[-1]] if f["id"].startswith("start=") else [res["_exe"], "--replay-scripted=" + f["id"]], capture_output=True, text=True, env=env)
+                    outs.append((pr.returncode != 0, sorted(l for l in pr.stdout.splitlines() if l.startswith("FAIL"))[:3]))
+                if f["id"].startswith("start=") and (outs[0] != outs[1] or not outs[0][0]):
+                    raise HarnessError("replay of path %s did not reproduce the failure %s deterministically: %r" % (f["id"], key, outs))
+                n = len(violations)
+                path = os.path.join(VERIF, "out", "replay", "%s-%d.json" % (pid, n))
+                json.dump(dict(property=pid, tier=tier, seed=seed, engine="fsx", run=r.describe(), path=f["id"], clause=f["clause"], msg=f["msg"], occurrences=v["count"],
+                               replay_argv=[res["_exe"], "--replay=" + f["id"].split("start=", 1)[-1]], replay_cmd="bin/replay %s" % path), open(path, "w"), indent=1)
+                violations.append(dict(sig=f["sig"], clause=f["clause"], id=f["id"], msg=f["msg"], count=v["count"], replay=path))
+                lines.append("VIOLATION property=%s replay=%s" % (pid, path))
+                lines.append("  # %s | %s | %s : %s (x%d)" % (f["sig"], f["clause"], f["id"], f["msg"], v["count"]))
+                continue
             reps = []
             for rep in range(2):
                 ed = os.path.join(scratch, "rep"); shutil.rmtree(ed, ignore_errors=True); os.makedirs(ed)
